@@ -189,7 +189,8 @@ func fmtServer(sc *config.ServerConfig) string {
 
 var cfgDir string
 
-func execLoadCfg(c *ctx, texthex string) {
+// cload <text> [<file name>]: the document is YAML whatever the file given with -c is called
+func execLoadCfg(c *ctx, texthex string, name string) {
 	text := unhx(texthex)
 	if cfgDir == "" {
 		d, err := os.MkdirTemp(".", "cfg")
@@ -198,10 +199,17 @@ func execLoadCfg(c *ctx, texthex string) {
 		}
 		cfgDir = d
 	}
-	path := filepath.Join(cfgDir, "config.yml")
+	op := "cload " + texthex
+	if name == "" {
+		name = "config.yml"
+	} else {
+		op += " " + hx([]byte(name))
+	}
+	path := filepath.Join(cfgDir, filepath.Base(name))
 	if err := os.WriteFile(path, text, 0o644); err != nil {
 		panic(err)
 	}
+	defer os.Remove(path)
 	view := guard(func() string { return configView(text) })
 	res := guard(func() string {
 		cfg, err := config.Load(path)
@@ -210,7 +218,7 @@ func execLoadCfg(c *ctx, texthex string) {
 		}
 		return fmt.Sprintf("ok s6 %s s4 %s", fmtServer(cfg.Server6), fmtServer(cfg.Server4))
 	})
-	c.emit("cload "+texthex, view+" ; "+res)
+	c.emit(op, view+" ; "+res)
 }
 
 func replayConfig(c *ctx, ops []string) {
@@ -220,7 +228,12 @@ func replayConfig(c *ctx, ops []string) {
 		}
 	}()
 	for _, op := range ops {
-		execLoadCfg(c, strings.Fields(op)[1])
+		f := strings.Fields(op)
+		name := ""
+		if len(f) > 2 {
+			name = string(unhx(f[2]))
+		}
+		execLoadCfg(c, f[1], name)
 	}
 }
 
@@ -350,6 +363,10 @@ func genConfig(c *ctx) {
 				b = c.mutate(b)
 			}
 		}
-		execLoadCfg(c, hx(b))
+		name := ""
+		if c.rng.Intn(4) == 0 {
+			name = pick(c, []string{"config.yaml", "coredhcp.conf", "coredhcp", "config.yml.bak", "dhcp.json", "dhcp.toml", "server.ini", "site.properties", "x.hcl", "Config.YML"})
+		}
+		execLoadCfg(c, hx(b), name)
 	}
 }
